@@ -263,6 +263,15 @@ func (g *worldGen) typ() *WType {
 	case 8:
 		return g.compositeDefault(g.structType(3))
 	case 9:
+		if sr := r.Side("const-union-default"); sr.Chance(1, 5) {
+			// a union of constants of one kind with a default: `*"auto" | "manual"`
+			vals := Pick(sr, [][]any{{"auto", "manual"}, {"a", "b", "c"}, {1, 2}})
+			t := &WType{K: "union", Default: vals[0]}
+			for _, v := range vals {
+				t.Branches = append(t.Branches, &WType{K: "const", Const: v})
+			}
+			return t
+		}
 		// union of scalars
 		n := 2 + r.Intn(2)
 		t := &WType{K: "union"}
@@ -326,8 +335,22 @@ func (g *worldGen) typ() *WType {
 		if g.opts.NoAllOf || g.opts.Plain {
 			return g.structType(3)
 		}
+		// a union as a direct member of the composition
+		var unionMember *WType
+		if sr := r.Side("allof-union"); sr.Chance(1, 4) {
+			unionMember = &WType{K: "union", Branches: []*WType{{K: "string"}, {K: "int"}}}
+			if sr.Bool() {
+				unionMember = &WType{K: "union", Branches: []*WType{{K: Pick(sr, []string{"string", "bool"})}, {K: "null"}}}
+			}
+		}
 		if pool := g.structRefPool(); len(pool) > 0 && r.Bool() {
+			if unionMember != nil {
+				return &WType{K: "allof", Branches: []*WType{{K: "ref", Ref: Pick(r, pool)}, unionMember}}
+			}
 			return &WType{K: "allof", Branches: []*WType{{K: "ref", Ref: Pick(r, pool)}, g.structType(2)}}
+		}
+		if unionMember != nil {
+			return &WType{K: "allof", Branches: []*WType{g.structType(2), unionMember}}
 		}
 		return &WType{K: "allof", Branches: []*WType{g.structType(2), g.structType(2)}}
 	}
@@ -393,8 +416,13 @@ func GenPackage(r *Rand, name string, opts GenOpts) *WPackage {
 		twoDisc := r.Bool()
 		numDisc := !opts.Plain && r.Chance(1, 3)
 		var famNames []string
+		lowerFamily := r.Side("family-names:" + name).Chance(1, 3)
 		for i := 0; i < fam; i++ {
 			n := fmt.Sprintf("Variant%c", 'A'+i)
+			if lowerFamily {
+				// definition names are whatever the schema's author chose: snake_case, lowerCamel
+				n = []string{"variant_a", "variantB", "variant_c"}[i]
+			}
 			famNames = append(famNames, n)
 			t := &WType{K: "struct"}
 			t.Fields = append(t.Fields, WField{Name: "type", T: &WType{K: "const", Const: fmt.Sprintf("v%c", 'a'+i)}, Required: true})
@@ -793,7 +821,11 @@ func (t *WType) cue(ind string) string {
 	case "union":
 		var parts []string
 		for _, b := range t.Branches {
-			parts = append(parts, b.cue(ind))
+			e := b.cue(ind)
+			if t.Default != nil && b.K == "const" && b.Const == t.Default {
+				e = "*" + e
+			}
+			parts = append(parts, e)
 		}
 		return strings.Join(parts, " | ")
 	case "allof":
